@@ -1,22 +1,30 @@
 /* h_gsrfs.c — C13: ?gsrfs called directly with verified factors and an ARBITRARY symbolic X (so the refinement loop really runs):
  * the reported BERR(j) is the componentwise backward error of the RETURNED X(j); FERR >= 0; at most 5 steps; only X/ferr/berr written.
- * args: n pattern panel relax maxsuper rowblk colblk fill trans nrhs ldbx ldxx xmode
- *   trans 0 N 1 T 2 C;  xmode 0: X fully symbolic, 1: only column 1 (or 0 if nrhs = 1) symbolic, the others the exact solution */
+ * args: n pattern panel relax maxsuper rowblk colblk fill trans nrhs ldbx ldxx xmode perturb
+ *   trans 0 N 1 T 2 C;  xmode 0: X fully symbolic, 1: only column 1 (or 0 if nrhs = 1) symbolic, the others the exact solution, 2: concrete B, X = 0 */
 #include "hcommon.h"
 int main(int argc, char **argv) {
   int n = (int)h_arg(argc, argv, 0, 2); h_pat_t pat = argc > 2 ? argv[2] : "0xf";
   h_set_tuning((int)h_arg(argc, argv, 2, 1), (int)h_arg(argc, argv, 3, 1), (int)h_arg(argc, argv, 4, 1), (int)h_arg(argc, argv, 5, 1), (int)h_arg(argc, argv, 6, 1), (int)h_arg(argc, argv, 7, 20));
   int tcode = (int)h_arg(argc, argv, 8, 0), nrhs = (int)h_arg(argc, argv, 9, 1), ldb = n + (int)h_arg(argc, argv, 10, 0), ldx = n + (int)h_arg(argc, argv, 11, 0), xmode = (int)h_arg(argc, argv, 12, 0);
+  int perturb = (int)h_arg(argc, argv, 13, 0);
   symmat_t S; symmat_build_cols(&S, n, n, pat, "a", 0);            /* concrete generic matrix */
+  /* perturb: the factors handed to ?gsrfs are those of a nearby matrix (diagonal times 1.4), as with reused or approximate factors: in exact arithmetic the refinement then
+     contracts the error by a constant factor < 1/2 per step instead of converging at once, so the stopping rule runs into its step cap (slow convergence is what rounding
+     causes in floating point) */
+  elem_t Aorig[NMAX * NMAX]; for (int_t k = 0; k < S.nnz; k++) Aorig[k] = S.val[k];
+  if (perturb) { int_t k = 0; for (int j = 0; j < n; j++) for (int i = 0; i < n; i++) if (S.D.nz[i][j]) { if (i == j) S.val[k] = e_scale(S.val[k], (real_t)1.4); k++; } }
   SuperMatrix A, AC, L, U, B, X; superlu_options_t opt; SuperLUStat_t stat; GlobalLU_t Glu; int perm_c[NMAX], perm_r[NMAX], etree[NMAX]; int_t info = -1; char nm[32];
   set_default_options(&opt); opt.ColPerm = NATURAL; for (int i = 0; i < n; i++) perm_c[i] = i;
   F(Create_CompCol_Matrix)(&A, n, n, S.nnz, S.val, S.rowind, S.colptr, SLU_NC, SLU_DT, SLU_GE);
   StatInit(&stat); sp_preorder(&opt, &A, perm_c, etree, &AC);
   F(gstrf)(&opt, &AC, sp_ienv(2), sp_ienv(1), etree, NULL, 0, perm_c, perm_r, &L, &U, &Glu, &stat, &info);
   if (info != 0) { slusym_note("info", (long)info); slusym_done(); return 0; }
+  for (int_t k = 0; k < S.nnz; k++) S.val[k] = Aorig[k];          /* A itself is what the residuals and the backward error refer to */
   elem_t *b = (elem_t *)malloc(sizeof(elem_t) * (ldb * nrhs + 1)), *b0 = (elem_t *)malloc(sizeof(elem_t) * (ldb * nrhs + 1)), *x = (elem_t *)malloc(sizeof(elem_t) * (ldx * nrhs + 1)), *x0 = (elem_t *)malloc(sizeof(elem_t) * (ldx * nrhs + 1));
   for (int j = 0; j < nrhs; j++) { for (int i = 0; i < ldb; i++) { snprintf(nm, sizeof nm, "b%d_%d", i, j); b[j * ldb + i] = b0[j * ldb + i] = e_sym(nm); }
     for (int i = 0; i < ldx; i++) { snprintf(nm, sizeof nm, "x%d_%d", i, j); x[j * ldx + i] = x0[j * ldx + i] = e_sym(nm); } }
+  if (xmode == 2) for (int j = 0; j < nrhs; j++) { for (int i = 0; i < n; i++) { b[j * ldb + i] = b0[j * ldb + i] = e_scale(e_one(), (real_t)(i + 2 * j + 1)); x[j * ldx + i] = x0[j * ldx + i] = e_zero(); } }   /* concrete start: single path */
   F(Create_Dense_Matrix)(&B, n, nrhs, b, ldb, SLU_DN, SLU_DT, SLU_GE); F(Create_Dense_Matrix)(&X, n, nrhs, x, ldx, SLU_DN, SLU_DT, SLU_GE);
   trans_t trans = tcode == 0 ? NOTRANS : tcode == 1 ? TRANS : CONJ;
   if (xmode == 1) { /* columns other than the chosen one start as the exact solution (no refinement there) */
